@@ -289,6 +289,8 @@ impl DebuggerContext {
             // `run` sets `is_done` and then joins this thread in order to terminate the
             // session. Nobody is going to read the outcome of an abandoned session, and a
             // blocking `send` into a full channel would make that `join` (and `run`) hang.
+            #[cfg(pest_parser_pest_verif)]
+            verif_hooks::at("t_final");
             if !is_done.load(Ordering::SeqCst) {
                 sender.send(event).expect(CHANNEL_CLOSED_PANIC);
             }
